@@ -18,6 +18,8 @@ PROPS = {
             "the immutable radix tree is an ordered map from big-endian offsets to flags; Walk visits keys in increasing order over the pre-transaction tree",
         ],
         trusted=["pkg/filetracker/export_verif.go accessor (build tag verif)"],
+        level_text="C22_refines_bitmap is proved in Coq for every history of writes, every probe offset and length (induction over the history with the alternating-marker invariant); the tracker model is the radix-tree walk as coded and is compared with the real trackWrite/getRangeToRead on exhaustive small histories and random longer ones on every run; the bitmap oracle is additionally evaluated on the implementation's own answers",
+        level_note="assumes non-negative offsets/lengths and the ordered-map reading of the immutable radix tree; trusted: Coq kernel, harness, accessor file pkg/filetracker/export_verif.go",
         explanation="theorem over all write histories; correspondence = exhaustive small histories and random longer ones probed at every offset",
     ),
 }
